@@ -620,6 +620,12 @@ def run(ctx):
 
     selfcheck(ctx, ctx.pick(4000, 1500))
 
+    # informative only: the statement fixes round trip and order, not the radix of the encoding
+    from oslo_utils import versionutils as vu
+    radix, _e = call(vu.convert_version_to_int, '1.0')
+    if is_int(radix):
+        ctx.extra['convert_version_to_int("1.0") (radix of the encoding; recorded, not asserted)'] = radix
+
     # ---- conversions --------------------------------------------------
     for v in [(6, 2, 0), (1, 2, 3), (1, 0, 0), (1,), (999,), (1, 999), (2, 0), (999, 999, 999, 999, 999)]:
         emit({'kind': 'rt', 'v': list(v)})
